@@ -527,3 +527,32 @@ void bad_dec_unpack__ignored__fp2_read_bin(fp2_t a, const uint8_t *bin, size_t l
 	fp_set_bit(a[1], 0, bin[RLC_FP_BYTES]);
 	fp2_upk(a, a);
 }
+
+/* the range test held in a local before it is branched on (behaviour-preserving) */
+void ok_hoisted__fp_read_bin(fp_t a, const uint8_t *bin, size_t len) {
+	bn_t t;
+	bn_null(t);
+	if (len != RLC_FP_BYTES) {
+		RLC_THROW(ERR_NO_BUFFER);
+		return;
+	}
+	RLC_TRY {
+		bn_new(t);
+		bn_read_bin(t, bin, len);
+		int bad = (bn_sign(t) == RLC_NEG ||
+				bn_cmp(t, &core_get()->prime) != RLC_LT);
+		if (bad) {
+			RLC_THROW(ERR_NO_VALID);
+		} else {
+			if (bn_is_zero(t)) {
+				fp_zero(a);
+			} else {
+				fp_prime_conv(a, t);
+			}
+		}
+	} RLC_CATCH_ANY {
+		RLC_THROW(ERR_CAUGHT);
+	} RLC_FINALLY {
+		bn_free(t);
+	}
+}
